@@ -704,17 +704,23 @@ class KeychainSqlite3(Keychain):
         if name not in self:
             raise KeyError(f'Identity {Name.to_str(id_name)} does not exist')
         identity = self[name]
-        key_name, pub_key = self.tpm.generate_key(name, key_type, **kwargs)
-        signer = self.tpm.get_signer(key_name)
-        cert_name, cert_data = self_sign(key_name, pub_key, signer)
-        key_name = Name.to_bytes(key_name)
-        cert_name = Name.to_bytes(cert_name)
-        self.conn.execute('INSERT INTO keys (identity_id, key_name, key_bits) VALUES (?, ?, ?)',
-                          (identity.row_id, key_name, pub_key))
-        self.conn.execute('INSERT INTO certificates (key_id, certificate_name, certificate_data)'
-                          'VALUES ((SELECT id FROM keys WHERE key_name=?), ?, ?)',
-                          (key_name, cert_name, bytes(cert_data)))
-        self.conn.commit()
+        tpm_key_name, pub_key = self.tpm.generate_key(name, key_type, **kwargs)
+        try:
+            signer = self.tpm.get_signer(tpm_key_name)
+            cert_name, cert_data = self_sign(tpm_key_name, pub_key, signer)
+            key_name = Name.to_bytes(tpm_key_name)
+            cert_name = Name.to_bytes(cert_name)
+            self.conn.execute('INSERT INTO keys (identity_id, key_name, key_bits) VALUES (?, ?, ?)',
+                              (identity.row_id, key_name, pub_key))
+            self.conn.execute('INSERT INTO certificates (key_id, certificate_name, certificate_data)'
+                              'VALUES ((SELECT id FROM keys WHERE key_name=?), ?, ?)',
+                              (key_name, cert_name, bytes(cert_data)))
+            self.conn.commit()
+        except Exception:
+            # Do not leave a private key behind that belongs to no key entry
+            self.conn.rollback()
+            self.tpm.delete_key(tpm_key_name)
+            raise
 
         if not identity.has_default_key():
             identity.set_default_key(key_name)
